@@ -57,7 +57,7 @@ ASSUMPTIONS = [
     "commits 55e2b09, 5844fee) they need no 'does not raise' hypothesis but 'checkable E L' (environment readable, every "
     "declared attribute meets rules written for its entry class and value type). 'checkable' is decidable (boolean pass "
     "'evaluate', sound), kernel-evaluated to hold for the nine bundled schemas as loaded by the model, proved to be "
-    "preserved by a one-attribute seed at the level of loaded records, and three seeded bundled schemas are taken through "
+    "preserved by a one-attribute seed at the level of loaded records (relation decided by evaluation; one instance exhibited through the lemma), and three seeded bundled schemas are taken through "
     "the theorems with all premises evaluated. NOT proved: that load() of the seeded XML stands in the one-attribute-seed "
     "relation to load() of the original (a statement about the loader), and that load() produces the record the "
     "implementation builds -- both are covered by the correspondence run (testing) only",
